@@ -327,6 +327,26 @@ fn exec_c<C: Suite>(scen: &Scenario) -> Exec {
             rep.probe("degree_checked");
         }
     }
+    // the t-1 non-constant coefficients are independent draws: their published commitments are pairwise distinct
+    // (equal coefficients would leave fewer than t unknowns, i.e. silently lower the threshold)
+    for r in &sim.history {
+        let entries: Option<Vec<Vec<u8>>> = match r {
+            Record::DealerOut { shares, .. } => shares.values().next().and_then(|s| s.commitment().serialize().ok()),
+            Record::DkgPart1 { pkg, .. } => pkg.commitment().serialize().ok(),
+            _ => None,
+        };
+        if let Some(e) = entries {
+            rep.evaluations += 1;
+            for i in 0..e.len() {
+                for j in (i + 1)..e.len() {
+                    if e[i] == e[j] {
+                        return Exec::Violation(viol("C03.polynomial_coefficients_coincide", format!("commitment entries {i} and {j} of a sharing polynomial are equal: fewer than t independent coefficients")), rep);
+                    }
+                }
+            }
+            rep.probe("coefficients_distinct_checked");
+        }
+    }
     // published dealer commitment has exactly t entries
     for r in &sim.history {
         if let Record::DealerOut { shares, .. } = r {
